@@ -60,7 +60,7 @@ out.append('''
 | C09 | 112 | history (op ids, node ids), edge matrices x -> s*x+t | every get() along every history of <= 3 mutations over 4 frames equals the dictionary forest | 94 s |
 | C10 | 27 | edge matrices (4 families), scale factors | bounds / extents / centroid / area / volume / triangles / dump / to_mesh, copy, scaled (uniform, per axis), rezero, apply_transform, +, subscene, chain with identity edge | 95 s |
 | C11 | 46 | triangle coordinates, plane offset | section / slice_plane sub-spaces (axis planes, catalogue oblique planes), on-vertex / on-edge sign patterns as paths | 12 s |
-| C12 | 29 | ray origin / query point (triangle catalogue) and vice versa | ray-triangle hits = exhaustive definition; closest point; nearby_faces candidates superset | 32 s |
+| C12 | 31 | ray origin / query point (triangle catalogue) and vice versa | ray-triangle hits = exhaustive definition, incl. a two-ray batch in one call (per-ray answers independent of the batch); closest point; nearby_faces candidates superset | 32 s |
 | C13 | 75 | run counts (any magnitude), dense values, indices | rle/brle codecs, splits at dtype maximum, encodings interchangeable under 7 single views (flips, swaps, cyclic transpose, flat, reshape) and 5 stacked views (transpose-transpose, transpose-flip-transpose, flip-transpose-flip, transpose-transpose with a 2-cycle and a 3-cycle, transpose-reshape-transpose); 6 known findings (mask / stripped / all-empty) | 22 s |
 | C14 | 2 | rectangle size / offset (Real); cut positions, directions, list order (forked) | traversal rebuilds every loop (area, perimeter, vertex set exact); shapely values per configuration on catalogue coordinates under 9 similarity transforms | 103 s |
 | C15 | 19 | radii, heights, extents, offsets (Real); section count (forked 3..6) | box / cylinder / cone / annulus: topology, signed volume > 0 and = inscribed formula, bounds, box area + inertia, under none / translation / rotation / mirror placements; sphere-like shapes on catalogue grids; primitive edits | 77 s |
